@@ -12,6 +12,8 @@ fn main() {
         "kv" => mcv::kv::run(&ctx),
         "quiet" => mcv::kv::run_c19(&ctx),
         "lin" => mcv::lin::run(&ctx),
+        "evict" => mcv::evict::run_c14(&ctx),
+        "acct" => mcv::evict::run_c15(&ctx),
         "frame" => mcv::frame::run_c09(&ctx),
         "hostile" => mcv::frame::run_c10(&ctx),
         _ => {
